@@ -33,10 +33,15 @@ MembersLive(st) ==
      /\ Has(st.nk, k) /\ st.nk[k] \in Live(st) /\ LcN(st.ss[st.nk[k]].nick) = k
 
 FS(p, name, ok) == IF ok THEN {} ELSE {<<p, name>>}
+(* invitations die with the channel; nobody lingers as "deleted" once an entry has been applied *)
+InvitationsToExistingChannels(st) == \A x \in DOMAIN st.ss : st.ss[x].inv \subseteq DOMAIN st.ch
+NoDeletedSessionLingers(st) == \A x \in DOMAIN st.ss : ~st.ss[x].del
 StateInvFailures(st) ==
   IF ~(\A k \in DOMAIN st.nk : st.nk[k] \in DOMAIN st.ss)
   THEN {<<"C14", "NickIndexDangling">>}
-  ELSE FS("C14", "NickUnique", NickUnique(st)) \cup FS("C14", "NamesValid", NamesValid(st))
+  ELSE FS("C13", "InvitationsToExistingChannels", InvitationsToExistingChannels(st))
+       \cup FS("C17", "NoDeletedSessionLingers", NoDeletedSessionLingers(st))
+       \cup FS("C14", "NickUnique", NickUnique(st)) \cup FS("C14", "NamesValid", NamesValid(st))
        \cup FS("C14", "MembershipSymmetric", MembershipSymmetric(st))
        \cup FS("C14", "NoEmptyChannel", NoEmptyChannel(st)) \cup FS("C14", "MembersLive", MembersLive(st))
 
@@ -49,7 +54,10 @@ ChannelLimitKept(S, T) ==
 ---------------------------------------------------------------------------
 (* C12: who receives what, under which identity *)
 IsNum(c) == Len(c) = 3 /\ \A i \in 1..3 : Ch(c, i) \in Digits
-MembersIn(st, c) == IF Has(st.ch, c) THEN MemberRcpts(st, c) ELSE {}
+(* recipients of a channel, tolerant of an inconsistent index (C14 reports the inconsistency itself) *)
+SafeKeys(st, c) == {k \in DOMAIN st.ch[c].mem : Has(st.nk, k) /\ st.nk[k] \in DOMAIN st.ss}
+MembersIn(st, c) == IF Has(st.ch, c) THEN {st.ss[st.nk[k]].id : k \in SafeKeys(st, c)} ELSE {}
+IndexResolves(st) == \A k \in DOMAIN st.nk : st.nk[k] \in DOMAIN st.ss
 UserPfx(p) == HasPrefix(p.h, "robust/0x")
 SvcStylePfx(p) == p.u = "services" /\ p.h = "services"
 Actor(e) == Sid(e.sess, 0)
@@ -83,7 +91,7 @@ RecipientOK(S, T, e, m) ==
          (* channel text: every other current member and nobody else (services links aside) *)
          LET c == LcC(m.p[1]) IN
          /\ Has(S.ch, c)
-         /\ m.to \ srv = {S.ss[S.nk[n]].id : n \in {k \in DOMAIN S.ch[c].mem : S.nk[k] # a}} \ srv
+         /\ m.to \ srv = {S.ss[S.nk[n]].id : n \in {k \in SafeKeys(S, c) : S.nk[k] # a}} \ srv
     [] m.cmd \in {"PRIVMSG", "NOTICE"} /\ m.from # SrvPfx /\ Len(m.p) >= 1 /\ HasPrefix(m.p[1], "$") ->
          m.to \subseteq {S.ss[x].id : x \in DOMAIN S.ss}
     [] m.cmd \in {"PRIVMSG", "NOTICE"} /\ m.from # SrvPfx /\ Len(m.p) >= 1 ->
@@ -98,6 +106,12 @@ RecipientOK(S, T, e, m) ==
     [] m.cmd = "ERROR" ->
          /\ Cardinality(m.to) = 1
          /\ m.to \subseteq {actorId} \cup {S.ss[x].id : x \in {y \in Live(S) : y \notin Live(T)}}
+    [] m.cmd \in {"JOIN", "PART", "KICK", "TOPIC", "MODE"} /\ m.from # NoPfx /\ Len(m.p) >= 1 /\ HasPrefix(m.p[1], "#")
+       /\ ~(a \in DOMAIN S.ss /\ S.ss[a].sv) ->
+         (* a channel event caused by a client: only that channel's members (before or after), the actor *)
+         (* and the sessions named in it (kicked / invited user)                                          *)
+         m.to \ srv \subseteq MembersIn(S, LcC(m.p[1])) \cup MembersIn(T, LcC(m.p[1]))
+                                \cup {RcptOf(S, T, x) : x \in Involved(S, T, e, m)}
     [] m.cmd \in {"JOIN", "PART", "KICK", "TOPIC", "MODE", "NICK", "QUIT", "INVITE", "KILL"} /\ m.from # NoPfx ->
          m.to \ srv \subseteq Sharing(S, T, e, m)
     [] m.cmd = "NOTICE" /\ m.from = SrvPfx ->
@@ -171,7 +185,7 @@ PrivFailures(S, T, e, out) ==
          (\/ S.ch[c].modes # T.ch[c].modes \/ S.ch[c].key # T.ch[c].key \/ S.ch[c].bans # T.ch[c].bans
           \/ \E k \in DOMAIN S.ch[c].mem \cap DOMAIN T.ch[c].mem :
                 (* same member (not a re-keyed nickname) with a changed operator flag *)
-                S.nk[k] = T.nk[k] /\ S.ch[c].mem[k] # T.ch[c].mem[k])
+                Has(S.nk, k) /\ Has(T.nk, k) /\ S.nk[k] = T.nk[k] /\ S.ch[c].mem[k] # T.ch[c].mem[k])
          => (e.cmd = "MODE" /\ (isop(c) \/ oper)))
     \cup F("TopicNeedsMembershipAndChanopOnT",
       \A c \in common :
@@ -223,8 +237,10 @@ EndedGone(S, T) ==
 (* all failures of one recorded step; rec carries the verdicts computed in Go *)
 PropFailures(S, e, T, out, rec) ==
   LET F(p, name, ok) == IF ok THEN {} ELSE {<<p, name>>}
-      okS == StateInvFailures(S) = {}
-      okT == StateInvFailures(T) = {}
+      (* the predicates below use tolerant lookups; only a nickname index that points outside the *)
+      (* session table makes them meaningless                                                   *)
+      okS == IndexResolves(S)
+      okT == IndexResolves(T)
   IN
   StateInvFailures(T)
   \cup F("C14", "SessionLimitKept", LimitsKept(S, T))
